@@ -49,6 +49,29 @@ theorem flatMap_replicate_zero (k m : Nat) : (List.replicate m 0).flatMap (leByt
     rw [List.replicate_succ, List.flatMap_cons, ih, hz, List.replicate_append_replicate]
     congr 1; ring
 
+/-- **the layout arithmetic of `encode_dict` and the v1 trailer, as the code has it NOW** (regenerated on every run): width
+    byte = 8·itemsize, the run announces ⌈n/8⌉ groups, the zero padding completes the last group in BYTES, a v1 page ends with
+    8 zero bytes.  Every theorem below about written pages goes through this lemma, so an edit of that arithmetic that
+    changes a value breaks them. -/
+theorem write_layout_now (n item : Nat) :
+    PqV.Gen.WriteLayout.recognised = true ∧
+    (PqV.Gen.WriteLayout.dictWidthByte item).toNat = item * 8 ∧
+    (PqV.Gen.WriteLayout.dictHeader n item).toNat = (n + 7) / 8 * 2 + 1 ∧
+    (PqV.Gen.WriteLayout.dictPad n item).toNat = ((n + 7) / 8 * 8 - n) * item ∧
+    PqV.Gen.WriteLayout.v1Trailer = 8 := by
+  refine ⟨by decide, ?_, ?_, ?_, by decide⟩
+  · simp only [PqV.Gen.WriteLayout.dictWidthByte]; omega
+  · simp only [PqV.Gen.WriteLayout.dictHeader]; omega
+  · simp only [PqV.Gen.WriteLayout.dictPad]
+    have hk : (((n : Int) + 7) / 8 * 8 - (n : Int)) = (((n + 7) / 8 * 8 - n : Nat) : Int) := by omega
+    rw [hk, ← Nat.cast_mul, Int.toNat_natCast]
+
+theorem writerDictData_eq (item : Nat) (codes : List Nat) :
+    writerDictData item codes = [item * 8] ++ uvarintEnc ((codes.length + 7) / 8 * 2 + 1) ++ codes.flatMap (leBytes item)
+      ++ List.replicate (((codes.length + 7) / 8 * 8 - codes.length) * item) 0 := by
+  obtain ⟨_, h1, h2, h3, _⟩ := write_layout_now codes.length item
+  simp only [writerDictData, h1, h2, h3]
+
 /-- **`encode_dict` writes one well-formed bit-packed run**: the width byte, then the run of the codes padded with
     zeros to whole groups of 8 (the padding is there in full — the repaired writer) -/
 theorem writerDictData_runs (item : Nat) (codes : List Nat) (h : ∀ v ∈ codes, v < 256 ^ item) :
@@ -62,7 +85,8 @@ theorem writerDictData_runs (item : Nat) (codes : List Nat) (h : ∀ v ∈ codes
     rcases List.mem_append.mp hv with h1 | h1
     · exact h v h1
     · rw [hpad, List.mem_replicate] at h1; rw [h1.2]; exact Nat.pow_pos (by norm_num)
-  simp only [writerDictData, encodeRuns, List.flatMap_cons, List.flatMap_nil, List.append_nil, encodeRun, hlen]
+  rw [writerDictData_eq]
+  simp only [encodeRuns, List.flatMap_cons, List.flatMap_nil, List.append_nil, encodeRun, hlen]
   rw [packLE_bytes item _ hall, List.flatMap_append, hpad, flatMap_replicate_zero]
   have : g * 8 / 8 = g := by omega
   simp [this, ← hg, List.append_assoc]
@@ -493,7 +517,7 @@ theorem written_page_v1 (c : ColSpec) (hv : c.v2 = false) (hpt : c.ptype ≤ 7) 
   have hC := count_levels c cells hok.no_nulls
   have hV := values_decode c hpt cats acc.dict hdict (nonNull cells) (List.replicate 8 0) hok.vals_ok
   have hbody : writerPageBody c cells = writerLevels c cells ++ (writerValues c (nonNull cells) ++ List.replicate 8 0) := by
-    simp [writerPageBody, hv]
+    simp [writerPageBody, hv, (write_layout_now 0 0).2.2.2.2]
   have hrep : ∀ bs : List Nat, levelsV1 0 cells.length bs = some (List.replicate cells.length 0, bs) := by
     intro bs; simp [levelsV1]
   have hrl : ∀ bs : List Nat, levelsLooseV1 0 cells.length bs = 0 := by intro bs; simp [levelsLooseV1]
